@@ -21,6 +21,7 @@ def configs(tier):
     if tier == 'quick':
         add(spec('localp', 'localp', 2, 1, 2, order=1), 1, 16); add(spec('localp', 'localp', 1, 1, 3, order=2), 1, 12); add(spec('localp', 'semi-localp', 1, 1, 3, order=3), 1, 12); add(spec('localp', 'localp-zero', 1, 1, 2, order=4), 1, 10); add(spec('localp', 'localp-zero', 1, 1, 4, order=5), 1, 40); add(spec('localp', 'localp', 1, 1, 5, order=6), 1, 40); add(spec('localp', 'semi-localp', 1, 1, 5, order=-1), 1, 40)
         add(spec('localp', 'localp-boundary', 2, 1, 1, order=-1, transform=1), 1, 10); add(spec('localp', 'localp', 2, 1, 1, order=1), 2, 8)
+        add(spec('global', 'clenshaw-curtis', 3, 1, 2), 1); add(spec('global', 'leja', 4, 1, 2), 2); add(spec('sequence', 'rleja', 3, 2, 2), 1); add(spec('global', 'gauss-legendre', 3, 1, 2, transform=1), 2)   # >= 3 dimensions: the tensor-product loops of the derivative weights
         add(spec('global', 'clenshaw-curtis', 2, 1, 2), 1); add(spec('global', 'gauss-legendre', 1, 2, 4, transform=1), 1); add(spec('global', 'clenshaw-curtis', 2, 2, 2, transform=1), 1); add(spec('localp', 'localp', 2, 2, 2, order=1, transform=1), 1, 24); add(spec('sequence', 'rleja', 2, 3, 2, transform=1), 1); add(spec('global', 'leja', 2, 1, 3), 2)
         add(spec('sequence', 'rleja', 2, 1, 3), 1); add(spec('sequence', 'leja', 2, 1, 3, limits=1), 1); add(spec('sequence', 'rleja', 2, 2, 1), 1); add(spec('global', 'clenshaw-curtis', 2, 1, 3, limits=2), 1); add(spec('sequence', 'min-delta', 2, 1, 4, 'iptotal', aniso=1, limits=2), 2)   # directions whose largest level is 0 / 1 / 2
         add(spec('sequence', 'min-lebesgue', 1, 1, 6, transform=1), 2)
@@ -36,11 +37,13 @@ def configs(tier):
             fast = rule in ('clenshaw-curtis', 'fejer2', 'gauss-patterson', 'rleja-double2', 'rleja-double4')
             tr = 0 if ('hermite' in rule or 'laguerre' in rule) else 1
             for dep in (0, 1): add(spec('global', rule, 2, 1, dep, transform=tr), 1)
+            add(spec('global', rule, 3, 1, 2, transform=tr), 1); add(spec('global', rule, 3, 2, 2), 2); add(spec('global', rule, 4, 1, 1 if fast else 2), 1)
             add(spec('global', rule, 2, 1, 2 if fast else 3, limits=1), 1); add(spec('global', rule, 2, 1, 3 if fast else 4, limits=2), 2)
             add(spec('global', rule, 1, 1, 3 if fast else 8, transform=tr), 1); add(spec('global', rule, 2, 2, 2 if fast else 4), 1); add(spec('global', rule, 2, 1, 2 if fast else 3, transform=tr), 2)
         for rule in SEQUENCE_RULES:
             for lim in (1, 2): add(spec('sequence', rule, 2, 1, 3, limits=lim), 1); add(spec('sequence', rule, 2, 1, 4, 'iptotal', aniso=1, limits=lim, transform=1), 2)
             for dep in (0, 1, 2): add(spec('sequence', rule, 2, 2, dep), 1); add(spec('sequence', rule, 3, 1, dep), 2)
+            add(spec('sequence', rule, 4, 1, 2), 1)
             add(spec('sequence', rule, 1, 1, 10, transform=1), 1); add(spec('sequence', rule, 2, 2, 5), 1); add(spec('sequence', rule, 3, 1, 3), 1); add(spec('sequence', rule, 2, 1, 4, transform=1), 2)
         add(spec('fourier', 'fourier', 1, 1, 1), 1); add(spec('fourier', 'fourier', 1, 2, 2), 1, solver_timeout_ms=120000); add(spec('fourier', 'fourier', 2, 1, 1), 1); add(spec('fourier', 'fourier', 2, 1, 1), 2); add(spec('fourier', 'fourier', 1, 1, 2), 2, solver_timeout_ms=120000)
         for order in (1, 3): add(spec('wavelet', 'wavelet', 1, 1, 2, order=order), 1, 60); add(spec('wavelet', 'wavelet', 2, 1, 1, order=order), 1, 80)
